@@ -171,6 +171,7 @@ impl HardwareBreakpoint {
         let mut state = HardwareDebugState::current(tracee_ctl.proc_pid())?;
         let register = self.register.expect("should exist");
         state.dr7.set_dr(register, false, false);
+        state.dr7.reset_bp(register);
         tracee_ctl.tracee_iter().for_each(|t| {
             if let Err(e) = state.sync(t.pid) {
                 error!("remove hardware breakpoint for thread {}: {e}", t.pid)
